@@ -26,5 +26,7 @@ if [ $rc -ne 0 ]; then tail -30 "$FACTS/cargo.log"; exit 3; fi
 for c in lightning lightning_invoice lightning_persister lightning_block_sync lightning_types; do
   grep -q "run=$RID" "$FACTS/$c/DONE" 2>/dev/null || { echo "facts for $c not produced by this run"; exit 3; }
 done
+# un-expanded TLV macro tables (syntax-tree extraction)
+python3 /verif/bin/run_synx.py "$REPO" "$FACTS/tlv.jsonl" || { echo "synx failed"; exit 3; }
 echo "$RID" > "$FACTS/RUN_ID"
 exit 0
